@@ -162,7 +162,8 @@ def run_case(c):
             res.sample({'sc_channels': None, 'requests': len(requests(tier))})
         elif c['kind'] == 'layouts':
             # the same curves and channel NAMES applied, one after the other, to samples with different column layouts
-            samples = [('full', d), ('reordered', d[:, ['CH3', 'CH4', 'CH1', 'CH2']]), ('subset', d[:, ['CH4', 'CH2', 'CH3']]), ('reversed', d[:, ::-1])]
+            samples = [('full', d), ('reordered', d[:, ['CH3', 'CH4', 'CH1', 'CH2']]), ('subset', d[:, ['CH4', 'CH2', 'CH3']]), ('reversed', d[:, ::-1]),
+                       ('no events', d[:0]), ('one event', d[3:4, ::-1])]
             import functools
             for SC in ([2, 1], [3, 2, 1], [1]):
                 scn = [NAMES[j] for j in SC]
